@@ -14,7 +14,7 @@
 #include <unistd.h>
 
 #define BUDGET 200
-#define MAXSTEPS 100000
+#define MAXSTEPS 20000
 enum { ST_RET = 0, ST_BUDGET = 2, ST_TAPE = 3, ST_HANG = 4, ST_SIGNAL = 5, ST_SILENT = 6 };
 
 typedef struct { int n, end; int ev[BUDGET + 2]; } Trace;
@@ -39,7 +39,7 @@ static void rt_init(void) {
   signal(SIGSEGV, on_sig); signal(SIGBUS, on_sig); signal(SIGILL, on_sig); signal(SIGFPE, on_sig); signal(SIGVTALRM, on_sig);
 }
 static void watchdog(int on) {
-  struct itimerval it = {{0, 0}, {on ? 2 : 0, 0}};   /* 2 s of CPU time for all runs of one program (each <= 200 events) */
+  struct itimerval it = {{0, 0}, {0, on ? 250000 : 0}};   /* 250 ms of CPU time for all runs of one program (each run <= 200 events, microseconds) */
   setitimer(ITIMER_VIRTUAL, &it, 0);
 }
 /* run one compiled function on the current tape */
@@ -217,6 +217,7 @@ static int explore(int idx, const Nd *nodes, const Prog *p, int L, int only_cc_r
           printf("V %d tape=", idx); for (int i = 0; i < tlen; i++) printf("%d", tape[i]);
           printf(" want="); show(&ti); printf(" got="); show(&tc); printf("\n");
         }
+        if (tc.end == ST_HANG) break;        /* one watchdog period per program at most */
       }
       if (ti.end != ST_TAPE) {
         unsigned long h = 1469598103934665603UL;
